@@ -351,10 +351,11 @@ def replay(case, kind=None):
 
 MANIFEST = dict(
 	engine='E-fault',
-	technique='exhaustive crash-point enumeration: one SIGKILLed real writer per h5py-call boundary and per write system call, real loader as judge',
+	technique='exhaustive crash-point enumeration: one real writer process killed (SIGKILL; at library-call boundaries also SIGTERM and SIGINT) per h5py-call boundary and per write system call, real loader as judge',
 	text='For both write paths, small and multi-megabyte payloads, with and without compression, a real writer process is killed at every boundary between '
 	     'storage-library calls and after every write system call on the file (LD_PRELOAD injector, count cross-checked with strace); what it leaves is '
-	     'given to the real load_signatures: it must raise, or yield exactly the collection being written (every signature read back).',
+	     'given to the real load_signatures: it must raise, or yield exactly the collection being written (every signature read back).  At every library-call boundary the writer is '
+	     'also sent SIGTERM and SIGINT and dies through its own signal handling (KeyboardInterrupt closes the file on the way out).',
 	note='process-death fault model (no torn/reordered writes); HDF5 2.0.0 POSIX driver; late read errors counted as refusals.',
 )
 
